@@ -208,6 +208,7 @@ class NodeWorld:
         self.stop_box = None
         self.dial_plan: dict = {}                # peer ip -> list of outcomes
         self.default_dial = cfg.get("default_dial", "inprogress")
+        self.behaviour_fn = None
         self._build()
 
     # ---- construction ---------------------------------------------------
@@ -300,6 +301,8 @@ class NodeWorld:
         plan = app._verif_cfg.get("handler_plan")
         if plan:
             behaviour = plan[(len([r for r in self.requests_seen if r["app"] == app._verif_idx]) - 1) % len(plan)]
+        if self.behaviour_fn is not None:
+            behaviour = self.behaviour_fn(rec) or behaviour
         rec["behaviour"] = behaviour
         if behaviour == "raise":
             raise RuntimeError("handler failure injected by the harness")
@@ -429,6 +432,19 @@ class NodeWorld:
         self.k.run()
         self.sync_dialed()
         return rec
+
+    def submit_answer(self, req_rec, result_code=2001, name="answerer"):
+        """An application answers a request it was handed earlier (held)."""
+        app = self.apps[req_rec["app"]]
+        out = {"exc": None}
+
+        def do():
+            ans = app.generate_answer(req_rec["msg"], result_code=result_code)
+            self._fill_answer(ans, req_rec["msg"])
+            app.send_answer(ans)
+        call = self.app_call(do, name=name)
+        req_rec["answered"] += 1
+        return call
 
     def stop(self, force=False, wait_timeout=180):
         self.stop_box = self.k.spawn(lambda: self.node.stop(wait_timeout=wait_timeout, force=force), name="stopper")
